@@ -2,12 +2,15 @@ package run
 
 import (
 	"bytes"
+	"database/sql"
 	"io"
+	"os"
 	"runtime/debug"
 
 	"github.com/foxglove/mcap/go/mcap"
 	"github.com/foxglove/mcap/go/ros"
 	"github.com/foxglove/mcap/go/ros/ros1msg"
+	_ "github.com/mattn/go-sqlite3"
 )
 
 func init() {
@@ -15,6 +18,22 @@ func init() {
 		debug.SetMaxStack(64 << 20) // a runaway recursion ends the worker quickly (fatal error: stack overflow)
 		_, err := ros1msg.ParseMessageDefinition("pkg", b)
 		return err
+	}
+	// the bytes are a database file (or anything else); the ament tree is the one the driver wrote (VERIF_AMENT_ROOT)
+	ExtraEntries["db3"] = func(b []byte) error {
+		f, err := os.CreateTemp("", "verif-db3-*.db3")
+		if err != nil {
+			return nil
+		}
+		defer os.Remove(f.Name())
+		f.Write(b)
+		f.Close()
+		db, err := sql.Open("sqlite3", f.Name())
+		if err != nil {
+			return err
+		}
+		defer db.Close()
+		return ros.DB3ToMCAP(io.Discard, db, &mcap.WriterOptions{Chunked: true, ChunkSize: 1024, IncludeCRC: true}, []string{os.Getenv("VERIF_AMENT_ROOT")})
 	}
 	ExtraEntries["bag2mcap"] = func(b []byte) error {
 		return ros.Bag2MCAP(io.Discard, bytes.NewReader(b), &mcap.WriterOptions{Chunked: true, ChunkSize: 1024, IncludeCRC: true})
